@@ -4,8 +4,10 @@ go 1.16
 
 require (
 	github.com/RoaringBitmap/roaring v0.9.4
+	github.com/blevesearch/vellum v1.0.7
 	github.com/blugelabs/bluge_segment_api v0.2.0
 	github.com/blugelabs/ice/v2 v2.0.0
+	github.com/klauspost/compress v1.15.2
 )
 
 replace github.com/blugelabs/ice/v2 => /repo
